@@ -5,6 +5,7 @@ from c03 import stages_term
 import obs
 
 ID = "C13"
+ENV_RERUN = 40          # cases repeated from a cargo build-script environment (lib/runner.py with_build_env)
 VALIDATE_MIX = True
 REQUIRES = ["ObsCheck", "Agree", "C13Spec", "C13Proof", "Truth"]
 THEOREM_REQUIRES = ["C13"]
